@@ -668,6 +668,18 @@ def cli_cases(rng):
         t[pos:pos + len(w2)] = list(w2)
         ts2.append("".join(t))
     cases.append(dict(templates=ts2, fwd=fwd2, rev=rev2, ef=0, er=0, min=1, max=25, ext=-1, full=False, circular=False, fragmented=True, mode="cli"))
+    # --fragmented with flanks (--delta 20): the amplicon AND its flanks must be found whole in some fragment - amplicons
+    # whose flank crosses a cut (fragments [0,1000), [1000-overlap, ...)), with and without --only-complete-flanking
+    fwd3, rev3 = "acgtacgtggccaatt", "ggccggaattccttaa"
+    w3 = fwd3 + "cccccccc" + rc(rev3)
+    for full in (False, True):
+        ts3 = []
+        for pos in [300, 930, 945, 950, 957, 985, 1000, 1900, 1910]:
+            t = [rng.choice("at") for _ in range(10600)]
+            piece = w3 if pos % 2 == 0 else rc(w3)
+            t[pos:pos + len(piece)] = list(piece)
+            ts3.append("".join(t))
+        cases.append(dict(templates=ts3, fwd=fwd3, rev=rev3, ef=0, er=0, min=1, max=10, ext=20, full=full, circular=False, fragmented=True, mode="cli"))
     return cases
 
 
@@ -697,6 +709,11 @@ def cli_clause(ctx, broken):
                     continue
                 key = None
                 if c.get("fragmented") and set(got) == set(want):
+                    key = "fragmented-duplicates"
+                elif c.get("fragmented") and c["ext"] >= 0 and set(want) <= set(got) and all(
+                        any(x[1:] == w_[1:] and x[0] in w_[0] for w_ in want) for x in got if x not in want):
+                    # every amplicon is there with its flanks; the extra records are second copies of amplicons, found in the
+                    # neighbouring fragment, whose flanks are clipped at the fragment border
                     key = "fragmented-duplicates"
                 if key and ctx.kf_match(key):
                     ctx.known(key, ctx.kf_match(key)["what"])
